@@ -148,4 +148,173 @@ Section D.
       + exists k. unfold gsub_of in Hk. now rewrite Hk.
     - destruct (inc_variant_fail _ Hd Htot) as [k Hk]. exists k. now rewrite Hk.
   Qed.
+
+  Lemma Forall_good (l : list gval) : Forall (good e) l.
+  Proof. apply Forall_forall. intros x _. apply gser_good. Qed.
+
+  Lemma deep_array el l : Forall deep l -> deep (GArray el l).
+  Proof.
+    intros HF st He Hw Hp Hs Hv Hd Hf. cbn [sval_of]. rewrite gser_seq.
+    pose proof (pre_align e _ Hp Hw) as Hal. cbn [gsig] in Hal, Hs |- *.
+    cbn [gwf] in Hw. apply andb_true_iff in Hw as [Hel Hwl].
+    unfold pre in Hp. rewrite all_nodes_array in Hp. apply andb_true_iff in Hp as [_ Hpl].
+    cbn [gdepth_ok] in Hf.
+    unfold gseq_begin. rewrite gpadded_gwr. rewrite Hs, Hal. cbn [bind galign]. autorewrite with gst.
+    destruct ((d_array (g_dep st) + 1 <=? 32) && (d_struct (g_dep st) + d_array (g_dep st) + dtot (g_dep st) + 1 <=? 64)) eqn:Hchk.
+    2:{ destruct (inc_array_fail _ Hd Hchk) as [k Hk]. exists k. now rewrite Hk. }
+    cbn [andb] in Hf. apply andb_true_iff in Hchk as [Hf1 Hf2]. apply N.leb_le in Hf1, Hf2.
+    destruct (inc_array_good _ Hd Hf1 Hf2) as (d' & Hinc & Hdec & Hd' & Hs' & Ha' & Ht'). rewrite Hinc. cbn [bind].
+    destruct (forallb_first_false _ _ Hf) as (l1 & x & l2 & -> & Hl1 & Hx).
+    rewrite forallb_app in Hwl, Hpl. apply andb_true_iff in Hwl as [Hw1 Hw2]. apply andb_true_iff in Hpl as [Hp1 Hp2].
+    cbn [forallb] in Hw2, Hp2. apply andb_true_iff in Hw2 as [Hwx _]. apply andb_true_iff in Hp2 as [Hpx _].
+    apply andb_true_iff in Hwx as [Hwx Hsx]. apply sig_eqb_eq in Hsx.
+    rewrite map_app, ser_elems_app.
+    set (p := pad (gabs st) (galign el)).
+    set (st1 := gset_dep (gset_sig (gwr st p) el) d').
+    rewrite (elems_ok e l1 (Forall_good l1) st1 (g_written st + len p) _ el); subst st1; autorewrite with gst; try assumption; try reflexivity.
+    2:{ rewrite Hs', Ha', Ht'. assumption. }
+    2:{ replace (g_pos0 st + (g_written st + len p)) with (gabs st + len p) by (unfold gabs; lia).
+        subst p. rewrite len_pad. apply padn_after, galign_nz. }
+    cbn [bind map ser_elems].
+    apply Forall_app in HF as [_ HF]. inversion HF as [|? ? Hdx _]; subst.
+    match goal with |- context [gser (sval_of x) ?s] => destruct (Hdx s) as [k Hk] end; autorewrite with gst; try assumption; try reflexivity.
+    - rewrite Hs', Ha', Ht'. assumption.
+    - exists k. now rewrite Hk.
+  Qed.
+
+  Lemma deep_struct l : Forall deep l -> deep (GStruct l).
+  Proof.
+    intros HF st He Hw Hp Hs Hv Hd Hf. cbn [sval_of]. rewrite gser_tuple.
+    pose proof (pre_align e _ Hp Hw) as Hal. cbn [gsig] in Hal, Hs |- *.
+    cbn [gwf] in Hw. apply andb_true_iff in Hw as [Hnel Hwl].
+    unfold pre in Hp. rewrite all_nodes_struct in Hp. apply andb_true_iff in Hp as [_ Hpl].
+    cbn [gdepth_ok] in Hf.
+    set (sigs := map gsig l) in *.
+    rewrite galign_struct in *. set (A := galigns sigs) in *.
+    assert (HA : A <> 0) by apply galigns_nz.
+    unfold gstruct_begin. rewrite gpadded_gwr. rewrite Hs, Hal. autorewrite with gst. rewrite Hs, Hal.
+    rewrite gpadded_gwr. autorewrite with gst.
+    set (p := pad (gabs st) A).
+    assert (HpA : (gabs st + len p) mod A = 0) by (subst p; rewrite len_pad; now apply padn_after).
+    rewrite (pad_aligned (gabs st + len p) A) by assumption. rewrite gwr_nil, len_nil, N.add_0_r.
+    destruct ((d_struct (g_dep st) + 1 <=? 32) && (d_struct (g_dep st) + d_array (g_dep st) + dtot (g_dep st) + 1 <=? 64)) eqn:Hchk.
+    2:{ destruct (inc_struct_fail _ Hd Hchk) as [k Hk]. exists k. now rewrite Hk. }
+    cbn [andb] in Hf. apply andb_true_iff in Hchk as [Hf1 Hf2]. apply N.leb_le in Hf1, Hf2.
+    destruct (inc_struct_good _ Hd Hf1 Hf2) as (d' & Hinc & Hd' & Hs' & Ha' & Ht'). rewrite Hinc. cbn [bind].
+    destruct (forallb_first_false _ _ Hf) as (l1 & x & l2 & Hl & Hl1 & Hx).
+    assert (Hdiv : forall y, In y l -> A mod galign (gsig y) = 0).
+    { intros y Hy. apply pow2_div; [apply galigns_pow2|apply galign_pow2|]. apply galigns_ge. subst sigs. now apply in_map. }
+    rewrite Hl in Hwl, Hpl, HF, Hdiv. rewrite forallb_app in Hwl, Hpl.
+    apply andb_true_iff in Hwl as [Hw1 Hw2]. apply andb_true_iff in Hpl as [Hp1 Hp2].
+    cbn [forallb] in Hw2, Hp2. apply andb_true_iff in Hw2 as [Hwx _]. apply andb_true_iff in Hp2 as [Hpx _].
+    set (st1 := gset_dep (gwr st p) d').
+    assert (Hsig1 : g_sig st1 = SStruct ([] ++ map gsig l1 ++ gsig x :: map gsig l2)).
+    { subst st1. autorewrite with gst. rewrite Hs. subst sigs. rewrite Hl, map_app. reflexivity. }
+    rewrite Hl, map_app. cbn [map].
+    rewrite (ser_fields_app (map gsig l1 ++ gsig x :: map gsig l2)) by exact Hsig1.
+    change 0%nat with (length (@nil sig)).
+    pose proof (fields_ok e l1 (Forall_good l1) st1 [] (gsig x :: map gsig l2) (g_written st + len p) [] A) as Hok.
+    rewrite Hok; clear Hok; subst st1; autorewrite with gst; try assumption; try reflexivity.
+    - cbn [bind length Nat.add]. rewrite map_length. cbn [ser_fields]. unfold gfield_sig. autorewrite with gst. rewrite Hs.
+      subst sigs. rewrite Hl, map_app. cbn [map]. rewrite nth_error_app2 by (rewrite map_length; lia).
+      rewrite map_length, Nat.sub_diag. cbn [nth_error bind].
+      apply Forall_app in HF as [_ HF]. inversion HF as [|? ? Hdx _]; subst.
+      match goal with |- context [gser (sval_of x) ?s] => destruct (Hdx s) as [k Hk] end; unfold gsub_of; autorewrite with gst; try assumption; try reflexivity.
+      + rewrite Hs', Ha', Ht'. assumption.
+      + exists k. unfold gsub_of in Hk. now rewrite Hk.
+    - rewrite Hs', Ha', Ht'. assumption.
+    - replace (g_pos0 st + (g_written st + len p)) with (gabs st + len p) by (unfold gabs; lia). assumption.
+    - intros y Hy. apply Hdiv. apply in_or_app. now left.
+  Qed.
+
+  Lemma Forall_good_pairs (l : list (gval * gval)) : Forall (fun p => good e (fst p) /\ good e (snd p)) l.
+  Proof. apply Forall_forall. intros x _. split; apply gser_good. Qed.
+
+  Lemma deep_dict ks vs l : Forall (fun p => deep (fst p) /\ deep (snd p)) l -> deep (GDict ks vs l).
+  Proof.
+    intros HF st He Hw Hp Hs Hv Hd Hf. cbn [sval_of]. rewrite gser_map.
+    pose proof (pre_align e _ Hp Hw) as Hal. cbn [gsig] in Hal, Hs |- *.
+    destruct (pre_node e _ Hp) as (Hnb & Hnt & Hne & Hnk & Hsmall).
+    cbn [gwf] in Hw. apply andb_true_iff in Hw as [Hw Hwl]. apply andb_true_iff in Hw as [Hkb Hvs].
+    unfold pre in Hp. rewrite all_nodes_dict in Hp. apply andb_true_iff in Hp as [_ Hpl].
+    cbn [gdepth_ok] in Hf.
+    cbn [galign] in *. set (al := N.max (galign ks) (galign vs)) in *.
+    assert (Hpal : pow2 al) by (apply pow2_max; apply galign_pow2).
+    assert (Hal0 : al <> 0) by now apply pow2_nz.
+    unfold gmap_begin. rewrite Hs. unfold gseq_begin. rewrite gpadded_gwr. rewrite Hs, Hal. cbn [bind]. autorewrite with gst.
+    destruct ((d_array (g_dep st) + 1 <=? 32) && (d_struct (g_dep st) + d_array (g_dep st) + dtot (g_dep st) + 1 <=? 64)) eqn:Hchk.
+    2:{ destruct (inc_array_fail _ Hd Hchk) as [k Hk]. exists k. now rewrite Hk. }
+    cbn [andb] in Hf. apply andb_true_iff in Hchk as [Hf1 Hf2]. apply N.leb_le in Hf1, Hf2.
+    destruct (inc_array_good _ Hd Hf1 Hf2) as (d' & Hinc & Hdec & Hd' & Hs' & Ha' & Ht'). rewrite Hinc. cbn [bind].
+    destruct (forallb_first_false _ _ Hf) as (l1 & q & l2 & Hl & Hl1 & Hq).
+    set (p := pad (gabs st) al).
+    set (st1 := gset_dep (gset_sig (gwr st p) ks) d').
+    change fixed_sized with gis_fixed.
+    (* every entry satisfies the side conditions of entries_ok, except possibly the depth *)
+    assert (Hside : forall q0, In q0 l ->
+              gwf (fst q0) = true /\ gwf (snd q0) = true /\ gsig (fst q0) = ks /\ gsig (snd q0) = vs /\
+              pre e (fst q0) = true /\ pre e (snd q0) = true /\
+              (gis_fixed ks && gis_fixed vs = true -> padn (len (concat (entry_parts e vs q0))) al = 0) /\
+              (gis_fixed ks = false -> entry_size_bad (len (concat (entry_parts e vs q0))) = false)).
+    { intros q0 Hq0. rewrite forallb_forall in Hwl, Hpl. specialize (Hwl q0 Hq0). specialize (Hpl q0 Hq0).
+      apply andb_true_iff in Hwl as [Hwl Hq4]. apply andb_true_iff in Hwl as [Hwl Hq3]. apply andb_true_iff in Hwl as [Hq1 Hq2].
+      apply sig_eqb_eq in Hq3, Hq4. apply andb_true_iff in Hpl as [Hq5 Hq6].
+      repeat split; try assumption.
+      - intros Hfx. cbn [node_tail] in Hnt. rewrite Hfx in Hnt. cbn [andb] in Hnt.
+        destruct (padn (len (concat (entry_parts e vs q0))) al =? 0) eqn:Hz; [now apply N.eqb_eq in Hz|].
+        exfalso. rewrite <- Bool.not_true_iff_false in Hnt. apply Hnt. apply existsb_exists. exists q0. split; [assumption|].
+        change (N.max (galign ks) (galign vs)) with al. now rewrite Hz.
+      - intros Hfx. cbn [node_dict_key] in Hnk. rewrite Hfx in Hnk. cbn [negb andb] in Hnk.
+        destruct (entry_size_bad (len (concat (entry_parts e vs q0)))) eqn:Hz; [|reflexivity].
+        exfalso. rewrite <- Bool.not_true_iff_false in Hnk. apply Hnk. apply existsb_exists. exists q0. split; assumption. }
+    assert (Hok : Forall (entry_ok e d' ks vs) l1).
+    { apply Forall_forall. intros q0 Hq0.
+      destruct (Hside q0) as (A1 & A2 & A3 & A4 & A5 & A6 & A7 & A8); [rewrite Hl; apply in_or_app; now left|].
+      rewrite forallb_forall in Hl1. specialize (Hl1 q0 Hq0). apply andb_true_iff in Hl1 as [B1 B2].
+      unfold entry_ok. rewrite Hs', Ha', Ht'. repeat split; assumption. }
+    rewrite Hl, map_app, ser_entries_app.
+    rewrite (entries_ok e l1 (Forall_good_pairs l1) st1 (g_written st + len p) _ ks vs); subst st1; autorewrite with gst; try assumption; try reflexivity.
+    2:{ replace (g_pos0 st + (g_written st + len p)) with (gabs st + len p) by (unfold gabs; lia).
+        subst p. rewrite len_pad. now apply padn_after. }
+    2:{ destruct (gis_fixed ks); reflexivity. }
+    cbn [bind map ser_entries]. rewrite N.sub_diag.
+    destruct (Hside q) as (A1 & A2 & A3 & A4 & A5 & A6 & _ & _); [rewrite Hl; apply in_or_app; right; now left|].
+    rewrite Hl in HF. apply Forall_app in HF as [_ HF]. inversion HF as [|? ? [Hdk Hdx] _]; subst.
+    unfold gpadded. fold pad.
+    destruct (gdepth_ok (d_struct (g_dep st)) (d_array (g_dep st) + 1) (dtot (g_dep st)) (fst q)) eqn:Hfk.
+    - (* the key fits, the value does not *)
+      cbn [andb] in Hq.
+      match goal with |- context [gser (sval_of (fst q)) ?s] =>
+        assert (Hkey : gser (sval_of (fst q)) s = Ok (gwr s (pad (gabs s) (galign (gsig (fst q))) ++ gvb e (fst q)))) end.
+      { apply gser_good; rewrite ?gpadded_gwr; autorewrite with gst; try assumption; try reflexivity.
+        unfold gfits. autorewrite with gst. rewrite Hs', Ha', Ht'. assumption. }
+      match type of Hkey with _ = Ok ?s1 =>
+        destruct (Hdx (gset_sig s1 (gsig (snd q)))) as [k Hk] end;
+        [autorewrite with gst; try assumption; try reflexivity ..|].
+      + rewrite Hs', Ha', Ht'. assumption.
+      + exists k. rewrite Hkey. cbn [bind]. unfold ser_entry_tail. now rewrite Hk.
+    - (* the key itself does not fit (keys are basic: never the case, but the proof does not need that) *)
+      match goal with |- context [gser (sval_of (fst q)) ?s] => destruct (Hdk s) as [k Hk] end;
+        [autorewrite with gst; try assumption; try reflexivity ..|].
+      + rewrite Hs', Ha', Ht'. assumption.
+      + exists k. now rewrite Hk.
+  Qed.
+
+  Theorem gser_deep : forall v, deep v.
+  Proof.
+    induction v using gval_ind'; try (intros st He Hw Hp Hs Hv Hd Hf; cbn [gdepth_ok] in Hf; discriminate).
+    - now apply deep_variant. - now apply deep_array. - now apply deep_dict. - now apply deep_struct. - now apply deep_just.
+  Qed.
 End D.
+
+(* the serializer returns a depth error exactly when the value exceeds the nesting limits *)
+Theorem gser_top_depth e pos v :
+  gwf v = true -> known_c05 e v = false -> gsmall e v = true -> gplain v = true ->
+  gwithin_limits v = false -> exists k, gser_top e pos (gsig v) (sval_of v) = Err (EDepth k).
+Proof.
+  intros Hw Hk Hs Hp Hl. unfold gser_top.
+  destruct (gser_deep e v (ginit e pos (gsig v) (FdsMode []))) as [k Hd]; try reflexivity; try assumption.
+  - now apply pre_split.
+  - split; cbn; lia.
+  - exists k. now rewrite Hd.
+Qed.
